@@ -30,6 +30,17 @@ PROPS = {
     },
 }
 
+PROPS["C11"] = {
+    "world": "exec", "level": "exploration", "quick_s": 15, "thorough_s": 420,
+    "rule": "one evaluation = one simulated call of DoUntilQuorum / DoUntilQuorumWithoutSuccessfulContextCancellation / DoMultiUntilQuorum... / legacy ReplicationSet.Do (replication sets, zones, tolerance, minimisation, hedging delay, zone order, terminal predicate, outcomes, completion order, clock advances and cancellation point drawn from the choice vector); non-trivial = a replica answered after the call had returned, or a failure / hedging tick released a held-back request; distinct = distinct released-task/action sequence hash among non-trivial runs",
+    "real": ["ring.DoUntilQuorum", "ring.DoUntilQuorumWithoutSuccessfulContextCancellation", "ring.DoMultiUntilQuorumWithoutSuccessfulContextCancellation", "ring.ReplicationSet.Do", "default and zone-aware result/context trackers", "hedging ticker (virtual clock)"],
+    "stub": ["replicas (call tasks parked; outcome chosen by the scheduler; may answer after their context was cancelled)", "caller context", "zone sorter (harness order) in part of the runs"],
+    "assumptions": _ASSUME_COMMON + ["tolerances are in [0, size-1] (degenerate tolerances >= size are excluded: the code documents them as misconfiguration)", "legacy ReplicationSet.Do: only results-from-successes, criterion-at-return, error rule and delayed extra requests are checked (it documents 'all results from f' and has no cleanup hook)"],
+    "level_text": "seeded exploration of outcomes, completion orders, hedging-clock positions and cancellation points of the real quorum-read executors against a criterion/cleanup/context model evaluated at every quiescent point; sampling, not proof",
+    "level_note": "trusted: simulator engine and the quorum model written from the statement; select among simultaneously ready channels inside dskit is decided by the Go runtime (oracles accept either branch)",
+    "design_ref": "DESIGN.md section 5 C11",
+}
+
 HOOK_COMMITS = []
 
 _PENDING = "claimed in DESIGN.md; check not yet registered (implementation in progress)"
